@@ -76,12 +76,13 @@ E1_broken == Uv("duplicate-key", <<
 
 \* ============================================================================ E2 "keys"
 \* compound key, nested key, two alternative keys (reaching `stock` from `ratings` needs a hop through
-\* `catalog`: id -> sku pkg), @key(resolvable: false) stubs
+\* `catalog`: id -> sku pkg), @key(resolvable: false) stubs -- one of which (catalog.Org) also owns a shared
+\* field, so that entering it through its unresolvable key would be wrong
 E2_catalog == SG("catalog", <<
   Obj("Query", <<>>, <<>>, << F("products", NN(Li(NN(Ty("Product"))))), FA("product", Ty("Product"), "id", NN(TID)) >>),
   Obj("Product", <<Key(<<FS("id")>>), Key(<<FS("sku"), FS("pkg")>>)>>, <<>>,
       << F("id", NN(TID)), F("sku", NN(TStr)), F("pkg", NN(TStr)), F("name", TStr), F("maker", Ty("Org")) >>),
-  Obj("Org", <<KeyNR(<<FS("id")>>)>>, <<>>, << F("id", NN(TID)) >>) >>)
+  Obj("Org", <<KeyNR(<<FS("id")>>)>>, <<>>, << F("id", NN(TID)), F("title", NN(TStr)) >>) >>)   \* stub that can also answer title
 E2_stock == SG("stock", <<
   Obj("Product", <<Key(<<FS("sku"), FS("pkg")>>)>>, <<>>, << F("sku", NN(TStr)), F("pkg", NN(TStr)), F("stock", TInt) >>) >>)
 E2_orgs == SG("orgs", <<
@@ -89,6 +90,7 @@ E2_orgs == SG("orgs", <<
   Obj("Org", <<Key(<<FS("id")>>)>>, <<>>, << F("id", NN(TID)), F("title", NN(TStr)), F("hq", Ty("Site")) >>),
   Obj("Site", <<Key(<<FSN("org", <<FS("id")>>), FS("code")>>)>>, <<>>, << F("org", NN(Ty("Org"))), F("code", NN(TStr)), F("addr", TStr) >>) >>)
 E2_geo == SG("geo", <<
+  Obj("Query", <<>>, <<>>, << F("nearest", Ty("Site")) >>),
   Obj("Site", <<Key(<<FSN("org", <<FS("id")>>), FS("code")>>)>>, <<>>, << F("org", NN(Ty("Org"))), F("code", NN(TStr)), F("lat", TInt) >>),
   Obj("Org", <<KeyNR(<<FS("id")>>)>>, <<>>, << F("id", NN(TID)) >>) >>)
 E2_ratings == SG("ratings", <<
@@ -98,7 +100,7 @@ E2_ratings == SG("ratings", <<
 E2_productFn == Fn("id", <<Case(Str("p1"), Ref("p1")), Case(Str("p2"), Ref("p2"))>>, Null)
 E2_U1 == Uv("all-present", <<
   O("Q", "Query", [products |-> Lst(<<Ref("p1"), Ref("p2")>>), product |-> E2_productFn,
-                   sites |-> Lst(<<Ref("s1"), Ref("s2")>>), top |-> Lst(<<Ref("p2"), Ref("p1"), Ref("p2")>>)]),
+                   sites |-> Lst(<<Ref("s1"), Ref("s2")>>), top |-> Lst(<<Ref("p2"), Ref("p1"), Ref("p2")>>), nearest |-> Ref("s2")]),
   O("p1", "Product", [id |-> Str("p1"), sku |-> Str("s1"), pkg |-> Str("k1"), name |-> Str("Pen"), maker |-> Ref("o1"), stock |-> Num(3), rating |-> Num(4)]),
   O("p2", "Product", [id |-> Str("p2"), sku |-> Str("s1"), pkg |-> Str("k2"), name |-> Str("Ink"), maker |-> Ref("o2"), stock |-> Num(0), rating |-> Num(2)]),
   O("o1", "Org", [id |-> Str("o1"), title |-> Str("Acme"), hq |-> Ref("s1")]),
@@ -107,7 +109,7 @@ E2_U1 == Uv("all-present", <<
   O("s2", "Site", [org |-> Ref("o2"), code |-> Str("c1"), addr |-> Str("Side"), lat |-> Num(20)]) >>)
 E2_U2 == Uv("nullable-nulls", <<
   O("Q", "Query", [products |-> Lst(<<Ref("p1"), Ref("p2")>>), product |-> E2_productFn,
-                   sites |-> Lst(<<Ref("s1"), Null, Ref("s2")>>), top |-> Lst(<<Null, Ref("p1")>>)]),
+                   sites |-> Lst(<<Ref("s1"), Null, Ref("s2")>>), top |-> Lst(<<Null, Ref("p1")>>), nearest |-> Null]),
   O("p1", "Product", [id |-> Str("p1"), sku |-> Str("s1"), pkg |-> Str("k1"), name |-> Null, maker |-> Null, stock |-> Null, rating |-> Num(4)]),
   O("p2", "Product", [id |-> Str("p2"), sku |-> Str("s1"), pkg |-> Str("k2"), name |-> Str("Ink"), maker |-> Ref("o2"), stock |-> Num(7), rating |-> Null]),
   O("o1", "Org", [id |-> Str("o1"), title |-> Str("Acme"), hq |-> Ref("s1")]),
@@ -116,7 +118,7 @@ E2_U2 == Uv("nullable-nulls", <<
   O("s2", "Site", [org |-> Ref("o2"), code |-> Str("c1"), addr |-> Str("Side"), lat |-> Null]) >>)
 E2_U3 == Uv("null-in-nonnull", <<
   O("Q", "Query", [products |-> Lst(<<Ref("p1"), Ref("p2")>>), product |-> E2_productFn,
-                   sites |-> Lst(<<Ref("s1"), Ref("s2")>>), top |-> Lst(<<Ref("p2"), Ref("p1")>>)]),
+                   sites |-> Lst(<<Ref("s1"), Ref("s2")>>), top |-> Lst(<<Ref("p2"), Ref("p1")>>), nearest |-> Ref("s1")]),
   O("p1", "Product", [id |-> Str("p1"), sku |-> Str("s1"), pkg |-> Str("k1"), name |-> Str("Pen"), maker |-> Ref("o1"), stock |-> Num(3), rating |-> Num(4)]),
   O("p2", "Product", [id |-> Str("p2"), sku |-> Str("s1"), pkg |-> Str("k2"), name |-> Str("Ink"), maker |-> Ref("o2"), stock |-> Num(0), rating |-> Num(2)]),
   O("o1", "Org", [id |-> Str("o1"), title |-> Str("Acme"), hq |-> Ref("s1")]),
@@ -124,7 +126,7 @@ E2_U3 == Uv("null-in-nonnull", <<
   O("s1", "Site", [org |-> Ref("o1"), code |-> Str("c1"), addr |-> Str("Main"), lat |-> Num(10)]),
   O("s2", "Site", [org |-> Ref("o2"), code |-> Str("c1"), addr |-> Str("Side"), lat |-> Num(20)]) >>)
 E2_U4 == Uv("empty-lists", <<
-  O("Q", "Query", [products |-> Lst(<<>>), product |-> E2_productFn, sites |-> Lst(<<>>), top |-> Lst(<<>>)]),
+  O("Q", "Query", [products |-> Lst(<<>>), product |-> E2_productFn, sites |-> Lst(<<>>), top |-> Lst(<<>>), nearest |-> Null]),
   O("p1", "Product", [id |-> Str("p1"), sku |-> Str("s1"), pkg |-> Str("k1"), name |-> Str("Pen"), maker |-> Ref("o1"), stock |-> Num(3), rating |-> Num(4)]),
   O("p2", "Product", [id |-> Str("p2"), sku |-> Str("s1"), pkg |-> Str("k2"), name |-> Str("Ink"), maker |-> Null, stock |-> Num(0), rating |-> Num(2)]),
   O("o1", "Org", [id |-> Str("o1"), title |-> Str("Acme"), hq |-> Null]) >>)
@@ -136,7 +138,8 @@ E2 == Entry("keys", <<E2_catalog, E2_stock, E2_orgs, E2_geo, E2_ratings>>, <<E2_
      Op(Doc(<< Fo("products", <<Fl("stock"), Fo("maker", <<Fl("title"), Fo("hq", <<Fl("addr"), Fl("lat")>>)>>)>>) >>, <<>>, <<>>), <<>>),
      Op(Doc(<< Fo("sites", <<Fl("lat"), Fl("addr"), Fo("org", <<Fl("title")>>)>>),
                Field("product", "", <<Arg("id", Str("p2"))>>, <<>>, <<Fl("rating"), Fl("pkg")>>) >>, <<>>, <<>>), <<>>),
-     Op(Doc(<< Fo("top", <<Fl("sku"), Fl("stock")>>) >>, <<>>, <<>>), <<>>) >>)
+     Op(Doc(<< Fo("top", <<Fl("sku"), Fl("stock")>>) >>, <<>>, <<>>), <<>>),
+     Op(Doc(<< Fo("nearest", <<Fl("addr"), Fo("org", <<Fl("title")>>)>>) >>, <<>>, <<>>), <<>>) >>)
 
 \* ============================================================================ E3 "requires"
 \* @requires on scalars of the same entity, through an owned entity reference into an @external field
@@ -351,11 +354,11 @@ SupportPairs(e) ==
      : a \in DOMAIN Catalog[e].sgs[j].types} : j \in DOMAIN Catalog[e].sgs}
 SupPairs == TLCEval([e \in DOMAIN Catalog |-> TLCEval(SupportPairs(e))])
 
-\* catalog sanity, model-checked before anything is generated
-CatalogOK ==
-  \A i \in DOMAIN Catalog :
-     /\ Composable(Catalog[i].sgs)
-     /\ \A u \in DOMAIN Catalog[i].universes :
-           /\ WellTyped(Supers[i], Catalog[i].universes[u])
-           /\ UniqueKeys(Catalog[i].sgs, Supers[i], Catalog[i].universes[u])
+\* catalog sanity, model-checked before anything is generated (an operator WITH a parameter: a zero-arity
+\* constant definition would be pre-evaluated by TLC at the start of every run that extends this module)
+EntryOK(i) ==
+  /\ Composable(Catalog[i].sgs)
+  /\ \A u \in DOMAIN Catalog[i].universes :
+        /\ WellTyped(Supers[i], Catalog[i].universes[u])
+        /\ UniqueKeys(Catalog[i].sgs, Supers[i], Catalog[i].universes[u])
 =============================================================================
